@@ -176,8 +176,11 @@ func (b *circuitBreakerBase) resetCurProbeNum() {
 // fromClosedToOpen updates circuit breaker state machine from closed to open.
 // Return true only if current goroutine successfully accomplished the transformation.
 func (b *circuitBreakerBase) fromClosedToOpen(snapshot interface{}) bool {
+	// Publish the retry deadline before the state: once the breaker is seen Open the deadline
+	// must already be in place, otherwise a concurrent TryPass reads the stale (elapsed) deadline
+	// and admits a probe immediately.
+	b.updateNextRetryTimestamp()
 	if b.state.cas(Closed, Open) {
-		b.updateNextRetryTimestamp()
 		for _, listener := range stateChangeListeners {
 			listener.OnTransformToOpen(Closed, *b.rule, snapshot)
 		}
@@ -222,9 +225,10 @@ func (b *circuitBreakerBase) fromOpenToHalfOpen(ctx *base.EntryContext) bool {
 // fromHalfOpenToOpen updates circuit breaker state machine from half-open to open.
 // Return true only if current goroutine successfully accomplished the transformation.
 func (b *circuitBreakerBase) fromHalfOpenToOpen(snapshot interface{}) bool {
+	// see fromClosedToOpen: deadline first, state second
+	b.updateNextRetryTimestamp()
 	if b.state.cas(HalfOpen, Open) {
 		b.resetCurProbeNum()
-		b.updateNextRetryTimestamp()
 		for _, listener := range stateChangeListeners {
 			listener.OnTransformToOpen(HalfOpen, *b.rule, snapshot)
 		}
